@@ -17,14 +17,18 @@
     - [compile_straightline_correct_partial]: the simulation for straight-line code of any length
       (all opcodes without control flow except rem_s).
     - [compile_block_correct_partial]: the simulation for whole function bodies built from the
-      constructs accepted by [blocks_ok]: straight-line code, block (with or without result) / loop /
-      if / if-else entered at an empty operand stack, br (also carrying a value to a value-typed block),
-      unreachable and return (last in their body), br_if to result-less labels, any nesting depth, back
-      edges to loop labels; forward jump targets are read from the back-patched final code, block results
-      travel through the reserved register.
+      constructs accepted by [blocks_ok]: straight-line code, block and if-else (with or without result) /
+      loop / one-armed if entered at an empty operand stack, br (also carrying a value to a value-typed
+      block or if-else), unreachable and return (last in their body), br_if to result-less labels, any
+      nesting depth, back edges to loop labels; forward jump targets are read from the back-patched final
+      code, block results travel through the reserved register.
       [compile_loop_correct_partial] is the same statement (loops are part of [blocks_ok]).
-    NOT proved (correspondence-only, see design/C01.md): calls, br_table, results of if-else / loop /
-    the function itself, blocks entered with operands below them, br_if carrying a value (KF-C01-1). *)
+    - [compile_fn_result_correct_partial]: the same for functions WITH a result ([blocks_ok_r]): the value
+      reaches the final [end] by fall-through or by a br to the function's own label and is moved to
+      register 0, where the final Return expects it.
+    NOT proved (correspondence-only, see design/C01.md): calls, br_table, loop results, value-typed if-else
+    whose then-branch ends with a jump, blocks entered with operands below them, br_if carrying a value
+    (KF-C01-1). *)
 From Coq Require Import ZArith NArith List Bool.
 From CB Require Import Common.IntN Common.IntNProofs Wasm.Syntax Wasm.SyntaxProofs Wasm.Sem Wasm.SemProofs
      Wasm.Compile Wasm.Machine Wasm.KnownClasses Wasm.Engine Wasm.Witnesses Wasm.EngineProofs Wasm.NumOpsProofs
@@ -289,9 +293,11 @@ Print Assumptions straightline_memory_nonvacuous.
 (** ** Stage B: structured control without loops and calls.
     For a function without result whose body [is] consists of the constructs accepted by [blocks_ok]
     ([Wasm/BlockSim.v], [ctl_ok]: instructions accepted by [straight_ok] with local indices below [nl];
-    [block] with or without result type, [loop] and [if] / [if-else] without result type, all entered when
-    the operand stack is empty (the body of a value-typed block must reach its [end]); [br l] (to any
-    label; to a value-typed block it carries the top of the stack into the block's reserved register),
+    [block] and [if-else] with or without result type, [loop] and one-armed [if] without result type (an [if]
+    with a result must have an else: [syn]), all entered when the operand stack is empty (the body of a
+    then-branch of a value-typed if-else must reach its [else]; value-typed blocks, else-branches and
+    function bodies may end with a jump); [br l] (to any
+    label; to a value-typed label it carries the top of the stack into the frame's reserved register),
     [unreachable] and [return] as the last instruction of their body, and [br_if l] to result-less labels
     only - so neither
     KF-C01-1 (br_if carrying a value) nor KF-C01-2 (local.set below an open conditional region with the
@@ -323,10 +329,14 @@ Theorem compile_block_correct_partial :
         | RNormal st' l' vs' =>
             vs' = [] /\ exists n M', nsteps art mhost codes n M = SNext M'
                        /\ rel art fidx (map fst (c_consts sF)) nl (c_next sF) cap sF st' l' [] M' /\ frame_eq M M'
-        | RReturn st' _ =>
+        | RReturn st' vs' =>
             exists n M', nsteps art mhost codes n M = SNext M' /\ frame_eq M M' /\ ms_idx M' = fidx
               /\ code_at (build_code (c_out sF ++ rest_code) xH (PositiveMap.empty N)) (ms_pc M') [IReturn]
               /\ Forall2 repr (ms_globals M') (s_globals st') /\ mem_rel art cap (ms_mem M') (s_mem st')
+              /\ match cx_return cx with
+                 | Some _ => exists v vs0, vs' = v :: vs0 /\ repr (reg M' 0) v
+                 | None => True
+                 end
         | RTrap => exists n e, nsteps art mhost codes n M = STrap e
         | RBr _ _ _ _ => False
         | _ => True
@@ -353,10 +363,14 @@ Theorem compile_loop_correct_partial :
         | RNormal st' l' vs' =>
             vs' = [] /\ exists n M', nsteps art mhost codes n M = SNext M'
                        /\ rel art fidx (map fst (c_consts sF)) nl (c_next sF) cap sF st' l' [] M' /\ frame_eq M M'
-        | RReturn st' _ =>
+        | RReturn st' vs' =>
             exists n M', nsteps art mhost codes n M = SNext M' /\ frame_eq M M' /\ ms_idx M' = fidx
               /\ code_at (build_code (c_out sF ++ rest_code) xH (PositiveMap.empty N)) (ms_pc M') [IReturn]
               /\ Forall2 repr (ms_globals M') (s_globals st') /\ mem_rel art cap (ms_mem M') (s_mem st')
+              /\ match cx_return cx with
+                 | Some _ => exists v vs0, vs' = v :: vs0 /\ repr (reg M' 0) v
+                 | None => True
+                 end
         | RTrap => exists n e, nsteps art mhost codes n M = STrap e
         | RBr _ _ _ _ => False
         | _ => True
@@ -364,8 +378,77 @@ Theorem compile_loop_correct_partial :
 Proof. exact compile_block_correct. Qed.
 Print Assumptions compile_loop_correct_partial.
 
+(** Functions WITH a result.  Same constructs ([blocks_ok_r] additionally replays the final [end];
+    [return] carries the top of the stack into register 0), compiled from the entry state of a function with a
+    result (the function frame's result location is register 0).  When the reference interpreter finishes
+    the body - by fall-through or by a [br] to the function label carrying the value - the machine reaches
+    the offset of the final Return with the result in register 0 and globals and memory related to the
+    specification's (local 0 has been overwritten by the result, so locals are no longer related); on [return]
+    it reaches a Return opcode with the returned value in register 0. *)
+Theorem compile_fn_result_correct_partial :
+  forall (art : artifact) (mhost : nat -> list Z -> option (option Z)) (cap : N)
+         (host : nat -> list val -> option memory -> host_result) (m : module) (cx : cctx)
+         (is : list instr) (t : valtype) (nl next : Z) (v' : vstate) (sF : cstate) (rest_code : list N),
+    blocks_ok_r nl cx t is = true -> 0 <= nl <= next -> 0 < next ->
+    compile_ops cx (flatten_body is) (init_vstate (Some t)) (init_fstate_r next) = Some (v', sF) ->
+    c_next sF < 2147483648 -> Z.of_nat (length (c_consts sF)) < 2147483648 ->
+    Z.of_nat (length (c_out sF ++ rest_code)) < 4294967296 ->
+    forall (codes : list (code_map * list Z)) (fidx : nat),
+      nth_error codes fidx
+        = Some (build_code (c_out sF ++ rest_code) xH (PositiveMap.empty N), map fst (c_consts sF)) ->
+      forall (st : store) (locals : list val) (M : mstate) (fuel : nat),
+        rel art fidx (map fst (c_consts sF)) nl (c_next sF) cap (init_fstate_r next) st locals [] M ->
+        match exec_instr host cap m fuel st locals [] (Block (Some t) is) with
+        | RNormal st' l' vs' =>
+            exists v, vs' = [v] /\ exists n M', nsteps art mhost codes n M = SNext M' /\ frame_eq M M'
+              /\ ms_idx M' = fidx /\ ms_pc M' = cur_off sF
+              /\ Forall2 repr (ms_globals M') (s_globals st') /\ mem_rel art cap (ms_mem M') (s_mem st')
+              /\ repr (reg M' 0) v
+        | RReturn st' vs' =>
+            exists n M', nsteps art mhost codes n M = SNext M' /\ frame_eq M M' /\ ms_idx M' = fidx
+              /\ code_at (build_code (c_out sF ++ rest_code) xH (PositiveMap.empty N)) (ms_pc M') [IReturn]
+              /\ Forall2 repr (ms_globals M') (s_globals st') /\ mem_rel art cap (ms_mem M') (s_mem st')
+              /\ match cx_return cx with
+                 | Some _ => exists v vs0, vs' = v :: vs0 /\ repr (reg M' 0) v
+                 | None => True
+                 end
+        | RTrap => exists n e, nsteps art mhost codes n M = STrap e
+        | RBr _ _ _ _ => False
+        | _ => True
+        end.
+Proof. exact compile_fn_result_correct. Qed.
+Print Assumptions compile_fn_result_correct_partial.
+
+(** non-vacuity for function results: the value reaches the final end by a br to the function label
+    (out of an if), by fall-through, and a return with a value *)
+Example fn_result_nonvacuous :
+  blocks_ok_r 2 fn_cx T_i32 fn_body = true
+  /\ (exists v' sF, compile_ops fn_cx (flatten_body fn_body) (init_vstate (Some T_i32)) (init_fstate_r 2) = Some (v', sF)
+       /\ c_bp sF = [] /\ c_stack sF = [PLocal 0]
+       /\ c_next sF < 2147483648 /\ Z.of_nat (length (c_consts sF)) < 2147483648
+       /\ Z.of_nat (length (c_out sF ++ [IReturn])) < 4294967296)
+  /\ (forall host cap m st,
+        exec_instr host cap m 50 st [VI32 1; VI32 5] [] (Block (Some T_i32) fn_body) = RNormal st [VI32 1; VI32 5] [VI32 7]
+        /\ exec_instr host cap m 50 st [VI32 0; VI32 5] [] (Block (Some T_i32) fn_body) = RNormal st [VI32 0; VI32 5] [VI32 6]
+        /\ exec_instr host cap m 50 st [VI32 0; VI32 9] [] (Block (Some T_i32) fn_body) = RReturn st [VI32 42]).
+Proof. exact ex_fn. Qed.
+Print Assumptions fn_result_nonvacuous.
+
+(** non-vacuity for bodies ending with a jump: a value-typed block whose body ends with a br carrying the
+    value, a function body ending with return *)
+Example jump_ending_nonvacuous :
+  blocks_ok_r 2 fn_cx T_i32 fn_body2 = true
+  /\ (exists v' sF, compile_ops fn_cx (flatten_body fn_body2) (init_vstate (Some T_i32)) (init_fstate_r 2) = Some (v', sF)
+       /\ c_bp sF = []
+       /\ c_next sF < 2147483648 /\ Z.of_nat (length (c_consts sF)) < 2147483648
+       /\ Z.of_nat (length (c_out sF ++ [IReturn])) < 4294967296)
+  /\ (forall host cap m st,
+        exec_instr host cap m 50 st [VI32 3; VI32 4] [] (Block (Some T_i32) fn_body2) = RReturn st [VI32 7]).
+Proof. exact ex_fn2. Qed.
+Print Assumptions jump_ending_nonvacuous.
+
 (** non-vacuity for block results: a value-typed block reached by fall-through and by a [br] carrying a
-    value out of a nested [if]; another value-typed block inside a loop body *)
+    value out of a nested [if]; an if-else with a result; another value-typed block inside a loop body *)
 Example block_result_nonvacuous :
   blocks_ok 2 blk_cx val_body = true
   /\ (exists v' sF, compile_ops blk_cx (flatten_body val_body) (init_vstate None) (init_fstate 2) = Some (v', sF)
@@ -373,8 +456,8 @@ Example block_result_nonvacuous :
        /\ c_next sF < 2147483648 /\ Z.of_nat (length (c_consts sF)) < 2147483648
        /\ Z.of_nat (length (c_out sF ++ [IReturn])) < 4294967296)
   /\ (forall host cap m st,
-        exec_instr host cap m 200 st [VI32 3; VI32 0] [] (Block None val_body) = RNormal st [VI32 0; VI32 17] []
-        /\ exec_instr host cap m 200 st [VI32 0; VI32 5] [] (Block None val_body) = RNormal st [VI32 0; VI32 22] []).
+        exec_instr host cap m 200 st [VI32 3; VI32 0] [] (Block None val_body) = RNormal st [VI32 0; VI32 18] []
+        /\ exec_instr host cap m 200 st [VI32 0; VI32 5] [] (Block None val_body) = RNormal st [VI32 0; VI32 24] []).
 Proof. exact ex_val. Qed.
 Print Assumptions block_result_nonvacuous.
 
